@@ -249,6 +249,9 @@ pub(crate) fn blend<S: Sample>(
                 clipped_original_frame_region.intersection(new_alpha_region);
         }
 
+        // Region covered by `target_subgrid`, in the coordinates of the new frame.
+        let mut target_subgrid_region = output_frame_region;
+
         let mut base_alpha_grid;
         let mut base_alpha = None;
         let mut target_grid;
@@ -304,9 +307,29 @@ pub(crate) fn blend<S: Sample>(
                     base_frame_header.y0 - header.y0,
                 );
                 let target_grid = target_grid.convert_to_float_modular(bit_depth)?;
+
+                // The base grid covers what the base frame needed for its own rendering, which
+                // may be less than the requested region.
+                let mut base_frame_region =
+                    base_frame_region.intersection(base_grid.regions_and_shifts()[idx].0);
+                if let Some(alpha_idx) = alpha_idx
+                    && alpha_idx + color_channels != idx
+                {
+                    base_frame_region = base_frame_region
+                        .intersection(base_grid.regions_and_shifts()[alpha_idx + color_channels].0);
+                }
+                target_subgrid_region = base_frame_region.translate(
+                    base_frame_header.x0 - header.x0,
+                    base_frame_header.y0 - header.y0,
+                );
+
                 target_subgrid = {
                     let grid_region = base_grid.regions_and_shifts()[idx].0;
-                    let region = base_frame_region.translate(-grid_region.left, -grid_region.top);
+                    let region = if base_frame_region.is_empty() {
+                        Region::empty()
+                    } else {
+                        base_frame_region.translate(-grid_region.left, -grid_region.top)
+                    };
                     let Region {
                         left,
                         top,
@@ -330,8 +353,11 @@ pub(crate) fn blend<S: Sample>(
                     base_alpha = Some({
                         let grid_region =
                             base_grid.regions_and_shifts()[alpha_idx + color_channels].0;
-                        let region =
-                            base_frame_region.translate(-grid_region.left, -grid_region.top);
+                        let region = if base_frame_region.is_empty() {
+                            Region::empty()
+                        } else {
+                            base_frame_region.translate(-grid_region.left, -grid_region.top)
+                        };
                         let Region {
                             left,
                             top,
@@ -362,6 +388,9 @@ pub(crate) fn blend<S: Sample>(
             new_grid.buffer_mut()[idx + color_channels].convert_to_float_modular(bit_depth)?;
         }
         new_grid.buffer_mut()[idx].convert_to_float_modular(bit_depth)?;
+
+        clipped_original_frame_region =
+            clipped_original_frame_region.intersection(target_subgrid_region);
 
         // Part of the alpha plane that covers the area being blended.
         let new_alpha = alpha_idx
@@ -410,10 +439,10 @@ pub(crate) fn blend<S: Sample>(
         blend_params.base_topleft = (
             clipped_original_frame_region
                 .left
-                .abs_diff(output_frame_region.left) as usize,
+                .abs_diff(target_subgrid_region.left) as usize,
             clipped_original_frame_region
                 .top
-                .abs_diff(output_frame_region.top) as usize,
+                .abs_diff(target_subgrid_region.top) as usize,
         );
         let new_left = clipped_original_frame_region
             .left
